@@ -7,7 +7,7 @@ tot = len(rows)
 inv = [r for r in rows if r.get("status")]
 same = [r for r in rows if r.get("trace") == "same"]
 killed = [r for r in rows if r.get("tests") == "fail"]
-surv = [r for r in rows if r.get("trace") in ("diff", "crash") and r.get("tests") == "pass"]
+surv = [r for r in rows if r.get("trace") in ("diff", "crash") and r.get("tests") in ("pass", "skipped")]
 fa = [r for r in same if any(v == 1 for v in r.get("checks", {}).values())]
 e2 = [r for r in same if r.get("checks") and not any(v == 1 for v in r["checks"].values())]
 caught = [r for r in surv if any(v == 1 for v in r.get("checks", {}).values())]
